@@ -81,7 +81,7 @@ package scheduler
 // placeholder whose replacement already sits on another node, adjusted by real - placeholder), preempting resources
 // are given back for preempted ones, and every released placeholder is taken out of the placeholder counter
 //@ func (pc *PartitionContext) removeNodeAllocations(node *objects.Node) (released []*objects.Allocation, confirmed []*objects.Allocation)
-//@   props C03 C04
+//@   props C03 C04 C06
 //@   sweep
 //@   mode nopanic=off
 //@   at[swapdelta] call objects.Queue.TryIncAllocatedResource#1: assert arg0 == queue && alloc.placeholder && (forall t Key :: rv(arg1, t) == clamp64(rv(release.allocatedResource, t) - rv(alloc.allocatedResource, t))) && (exists t Key :: rv(arg1, t) < 0)
